@@ -1178,7 +1178,7 @@ class RoundGen:
         name = self.fresh_name(chain)
         if name is None:
             return
-        kind = rng.choice(["const", "const", "scribble", "double", "mutate"])
+        kind = rng.choice(["const", "const", "scribble", "double", "mutate", "reenter"])
         if fault == "callback_raises":
             kind = "raise"
             self.fault_label = "callback_raises"
@@ -1191,7 +1191,7 @@ class RoundGen:
             else:
                 p = rng.choice(cands)
                 st.update(type="float", unit=self.g.nodes[p]["unit"], fn={"kind": "double", "path": p})
-        if kind in ("const", "scribble", "raise", "mutate"):
+        if kind in ("const", "scribble", "raise", "mutate", "reenter"):
             typ = rng.choice(["float", "int", "str", "bool"])
             v = self.scalar_value(typ)
             if v is None or v == "":
@@ -1381,6 +1381,36 @@ def make_callback(st, stats):
                                    "ms": "s", "g": "kg", "kg": "g", "mg": "g"}.get(v.unit, v.unit))
                 except Exception:
                     pass
+            return fn["value"]
+        if fn["kind"] == "reenter":
+            # ordinary user code that uses the library itself while the outer parse is half-way
+            # through its text: another parser parses a small text, a quantity is converted, a
+            # unit scope is opened and closed.  Whatever goes wrong in there is reported after
+            # the round (stats.reentry); the outer parse gets its constant either way.
+            stats.fault("callback_uses_the_library", True)
+            try:
+                from scinumtools.units import Quantity, UnitEnvironment
+                q = DIP(name=st["fname"] + "_nested")
+                q.add_string("inner float = 2 cm\ninner = 30 mm\nflag bool = false\n"
+                             "count int = 0\n  !options [0,1]")
+                d = q.parse().data(format=Format.TUPLE)
+                got = {k: (split_tuple(v)[0], split_tuple(v)[1]) for k, v in d.items()}
+                want = {"inner": (3.0, "cm"), "flag": (False, None), "count": (0, None)}
+                if list(got) != list(want) or any(
+                        got[k][1] != want[k][1] or not same_value(got[k][0], want[k][0])
+                        for k in want):
+                    stats.reentry.append(["nested parse", repr(want), repr(got)[:200]])
+                v = Quantity(3.0, "km").value("m")
+                if abs(v - 3000.0) > 1e-9:
+                    stats.reentry.append(["3 km in m", 3000.0, repr(v)])
+                with UnitEnvironment({"reent": {"magnitude": 4.0,
+                                                "dimensions": [0, 0, 1, 0, 0, 0, 0, 0]}}):
+                    v = Quantity(2.0, "reent").value("s")
+                if abs(v - 8.0) > 1e-9:
+                    stats.reentry.append(["2 reent in s", 8.0, repr(v)])
+            except Exception as e:
+                stats.reentry.append(["library used from a callback", "no error",
+                                      type(e).__name__ + repr(e.args)[:160]])
             return fn["value"]
         if fn["kind"] == "scribble":
             # a hostile callback: overwrite and delete what it was handed
@@ -1986,6 +2016,7 @@ class DipStoreMachine(Machine):
             except Exception:
                 self.stats.fault("documentation_built_over_the_base_first", False)
         sib = self._sibling_open(op, name, base)
+        self.stats.reentry = []
         p = None
         try:
             p = _new_parser(base["env"] if base else None, name, op.get("caller"))
@@ -2040,6 +2071,11 @@ class DipStoreMachine(Machine):
                        "text": [("file " + c["path"] if c["via"] == "file" else "string") + ":\n" +
                                 "\n".join(DM.render(st) for st in s) for c, s in chunks],
                        "io_fault": io}
+        if self.stats.reentry:
+            probs, self.stats.reentry = self.stats.reentry, []
+            raise Violation("library_used_from_a_callback_misbehaves",
+                            dict(detail_base, problems=probs[:3]),
+                            signature=f"{self.cfg['prop']}/reentry/" + _slug(probs[0][0]))
         if sib:
             self._sibling_verdict(sib, detail_base)
         # ---- oracle 3: earlier environments and files untouched (always)
